@@ -1015,14 +1015,17 @@ class Runner:
                 else:
                     args['identity'] = o['_id'] if shape == 'identity' else kc[o['_id']]
                     exp_key, exp_cert = self.defaults_of(m, i)
-            elif shape in ('key', 'key_obj'):
+            elif shape in ('key', 'key_obj', 'id_key'):
+                if shape == 'id_key':
+                    # both selectors given: the more specific one (the key) decides - documented order cert, key, identity
+                    args['identity'] = o['_id']
                 kn = o['_key']
                 i, rec = _find_key(m, kn)
                 if rec is None:
                     expect_error = True
                     args['key'] = Name.from_bytes(kn)
                 else:
-                    args['key'] = Name.from_bytes(kn) if shape == 'key' else kc[Name.from_bytes(i)][Name.from_bytes(kn)]
+                    args['key'] = Name.from_bytes(kn) if shape in ('key', 'id_key') else kc[Name.from_bytes(i)][Name.from_bytes(kn)]
                     exp_key = kn
                     exp_cert = rec['keys'][kn]['dcert']
             elif shape in ('cert', 'cert_obj'):
@@ -1306,7 +1309,7 @@ def generate(rng, seed, tier='quick'):
         elif x < 0.77:
             ops.append({'op': 'del_identity', 'id': rng.choice(ids)})
         elif x < 0.93:
-            shape = rng.choice(['empty', 'identity', 'identity_obj', 'key', 'key_obj', 'cert', 'cert_obj', 'digest', 'none'])
+            shape = rng.choice(['empty', 'identity', 'identity_obj', 'key', 'key_obj', 'cert', 'cert_obj', 'digest', 'none', 'id_key'])
             op = {'op': 'get_signer', 'shape': shape, 'id': rng.choice(ids), 'key': rng.randint(0, 7), 'cert': rng.randint(0, 9)}
             if shape in ('key', 'cert') and rng.random() < 0.4:
                 op['name_form'] = rng.choice(['str', 'wire'])
